@@ -207,6 +207,9 @@ pub fn labels(cfg: &RunCfg, r: &SingleResult) -> Vec<String> {
             }
         ),
     ];
+    if cfg.pre_interrupted > 0 {
+        l.push("run:state_already_interrupted".into());
+    }
     if r.facts.n_data_edges > 0 {
         l.push("graph:has_data_edges".into());
     }
